@@ -238,6 +238,10 @@ struct Ctx {
     exp2: Vec<u8>,
     tmp: Vec<u8>,
     case: String,
+    /// hardware write watchpoints (only in the `Watch` shards / a replay of such a case)
+    watch: Option<Watch>,
+    /// first reason why the watchpoint machinery cannot be trusted in this shard
+    wp_fail: Option<String>,
 }
 
 impl Ctx {
@@ -249,7 +253,252 @@ impl Ctx {
         let pat: Vec<u8> = (0..cap).map(|i| ((i % 251) + 7 * (i / 251)) as u8).collect();
         let npat: Vec<u8> = pat.iter().map(|b| !b).collect();
         let cz: Vec<u8> = (0..cap).map(|i| 0xA5u8 ^ ((i % 253) as u8).wrapping_mul(3)).collect();
-        Ctx { f, a, s, pat, npat, cz, exp: vec![0; cap], exp2: vec![0; cap], tmp: vec![0; cap], case: String::with_capacity(256) }
+        Ctx { f, a, s, pat, npat, cz, exp: vec![0; cap], exp2: vec![0; cap], tmp: vec![0; cap], case: String::with_capacity(256), watch: None, wp_fail: None }
+    }
+
+    /// Open the four watchpoints and prove on a scratch buffer that they count what they must.
+    fn enable_watch(&mut self) {
+        match Watch::open() {
+            Ok(w) => self.watch = Some(w),
+            Err(e) => {
+                self.wp_fail = Some(e);
+                return;
+            }
+        }
+        if let Err(e) = self.calibrate() {
+            self.wp_fail.get_or_insert(e);
+        }
+    }
+
+    /// Machinery self-test: a correct byte-loop copy into `[dest, dest+n)` counts 0 on every
+    /// watchpoint of both sides; a same-value store to each watched byte counts exactly 1; an
+    /// aligned word read-modify-write that straddles an end of the range (the shape of defect the
+    /// watchpoints exist for) counts.
+    fn calibrate(&mut self) -> Result<(), String> {
+        let base = self.a.start_ptr() as usize + 256;
+        for (mis, n) in [(0usize, 16usize), (3, 18), (5, 0), (7, 33), (12, 21)] {
+            let dest = base + mis;
+            for side in [Side::After, Side::Before] {
+                let ps = pieces(dest, n, side);
+                let w = self.watch.as_mut().unwrap();
+                w.arm(&ps)?;
+                let d = unsafe { std::slice::from_raw_parts_mut(dest as *mut u8, n) };
+                let src = self.pat[..n].to_vec();
+                w.reset();
+                ref_copy(d, &src);
+                let c = w.counts();
+                if c.iter().any(|&x| x != 0) {
+                    return Err(format!("calibration: a correct copy of {n} bytes to ..{mis:x} counted {c:?} on the {side:?} watchpoints {ps:?}"));
+                }
+                for (i, &(a, l)) in ps.iter().enumerate() {
+                    for b in a..a + l {
+                        w.reset();
+                        unsafe { write_volatile(b as *mut u8, read_volatile(b as *const u8)) };
+                        let c = w.counts();
+                        let ok = (0..ps.len()).all(|j| c[j] == (i == j) as u64);
+                        if !ok {
+                            return Err(format!("calibration: a same-value store to byte {b:#x} counted {c:?} on the {side:?} watchpoints {ps:?} (expected 1 on #{i} only)"));
+                        }
+                    }
+                }
+                // word read-modify-write straddling the end of the range
+                let edge = if side == Side::After { dest + n } else { dest };
+                if edge % 8 != 0 {
+                    let word = (edge & !7) as *mut u64;
+                    w.reset();
+                    unsafe { write_volatile(word, read_volatile(word)) };
+                    if w.counts().iter().all(|&x| x == 0) {
+                        return Err(format!("calibration: an aligned 8-byte rewrite of the word at {word:p} was not seen by the {side:?} watchpoints {ps:?}"));
+                    }
+                }
+                w.disarm();
+            }
+        }
+        Ok(())
+    }
+}
+
+// ---------------------------------------------------------------------------
+// hardware write watchpoints: perf_event_open(PERF_TYPE_BREAKPOINT, HW_BREAKPOINT_W) on the
+// calling thread, user mode only.  x86 has four debug registers; a watchpoint covers 1, 2, 4
+// or 8 bytes and must be aligned to its length.  A count > 0 means a store instruction of this
+// thread touched a watched byte while the event was enabled, whatever value was stored.
+
+#[repr(C)]
+#[derive(Clone, Copy)]
+struct PerfAttr {
+    type_: u32,
+    size: u32,
+    config: u64,
+    sample_period: u64,
+    sample_type: u64,
+    read_format: u64,
+    flags: u64,
+    wakeup_events: u32,
+    bp_type: u32,
+    bp_addr: u64,
+    bp_len: u64,
+    branch_sample_type: u64,
+    sample_regs_user: u64,
+    sample_stack_user: u32,
+    clockid: i32,
+    sample_regs_intr: u64,
+    aux_watermark: u32,
+    sample_max_stack: u16,
+    reserved_2: u16,
+}
+const _: () = assert!(std::mem::size_of::<PerfAttr>() == 112); // PERF_ATTR_SIZE_VER5
+const PERF_TYPE_BREAKPOINT: u32 = 5;
+const HW_BREAKPOINT_W: u32 = 2;
+const ATTR_DISABLED: u64 = 1 << 0;
+const ATTR_EXCLUDE_KERNEL: u64 = 1 << 5;
+const ATTR_EXCLUDE_HV: u64 = 1 << 6;
+const PERF_EVENT_IOC_DISABLE: libc::c_ulong = 0x2401;
+const PERF_EVENT_IOC_RESET: libc::c_ulong = 0x2403;
+const PERF_EVENT_IOC_MODIFY_ATTRIBUTES: libc::c_ulong = 0x4008_240B;
+
+#[derive(Clone, Copy, PartialEq, Debug)]
+enum Side {
+    /// the rest of the aligned word that holds dest+n-1, and the whole next word: 8..=15 bytes from dest+n on
+    After,
+    /// the whole aligned word before the one that holds dest, and the start of that one: 8..=15 bytes up to dest-1
+    Before,
+}
+
+/// Aligned (address, length) pieces, at most four, that cover exactly the watched window of `side`.
+fn pieces(dest: usize, n: usize, side: Side) -> Vec<(usize, usize)> {
+    fn fill(mut cur: usize, end: usize, out: &mut Vec<(usize, usize)>) {
+        while cur < end {
+            let mut l = 4;
+            while cur % l != 0 || cur + l > end {
+                l /= 2;
+            }
+            out.push((cur, l));
+            cur += l;
+        }
+    }
+    let mut v = Vec::with_capacity(4);
+    match side {
+        Side::After => {
+            let a = dest + n;
+            let b = (a + 7) & !7;
+            fill(a, b, &mut v);
+            v.push((b, 8));
+        }
+        Side::Before => {
+            let s = dest & !7;
+            v.push((s - 8, 8));
+            fill(s, dest, &mut v);
+        }
+    }
+    debug_assert!(v.len() <= 4);
+    v
+}
+
+struct Watch {
+    fds: [c_int; 4],
+    live: [bool; 4],
+    cur: Vec<(usize, usize)>,
+    _parking: Box<[u64; 8]>,
+}
+
+impl Watch {
+    fn attr(addr: usize, len: usize, disabled: bool) -> PerfAttr {
+        let mut a: PerfAttr = unsafe { std::mem::zeroed() };
+        a.type_ = PERF_TYPE_BREAKPOINT;
+        a.size = std::mem::size_of::<PerfAttr>() as u32;
+        a.bp_type = HW_BREAKPOINT_W;
+        a.bp_addr = addr as u64;
+        a.bp_len = len as u64;
+        a.flags = ATTR_EXCLUDE_KERNEL | ATTR_EXCLUDE_HV | if disabled { ATTR_DISABLED } else { 0 };
+        a
+    }
+    fn open() -> Result<Watch, String> {
+        let parking = Box::new([0u64; 8]);
+        let mut fds = [-1; 4];
+        for (i, fd) in fds.iter_mut().enumerate() {
+            let a = Self::attr(&parking[i] as *const u64 as usize, 8, true);
+            // pid 0 / cpu -1: this thread, on whatever CPU it runs
+            let r = unsafe { libc::syscall(libc::SYS_perf_event_open, &a as *const PerfAttr, 0, -1, -1, 0) };
+            if r < 0 {
+                return Err(format!(
+                    "perf_event_open(PERF_TYPE_BREAKPOINT, W) for debug register {i} failed: {} (perf_event_paranoid={})",
+                    std::io::Error::last_os_error(),
+                    std::fs::read_to_string("/proc/sys/kernel/perf_event_paranoid").unwrap_or_default().trim()
+                ));
+            }
+            *fd = r as c_int;
+        }
+        Ok(Watch { fds, live: [false; 4], cur: Vec::with_capacity(4), _parking: parking })
+    }
+    /// Move the watchpoints to `ps` and enable them; the remaining registers are disabled.
+    fn arm(&mut self, ps: &[(usize, usize)]) -> Result<(), String> {
+        for i in 0..4 {
+            if let Some(&(addr, len)) = ps.get(i) {
+                let mut a = Self::attr(addr, len, false);
+                if unsafe { libc::ioctl(self.fds[i], PERF_EVENT_IOC_MODIFY_ATTRIBUTES, &mut a as *mut PerfAttr) } != 0 {
+                    return Err(format!("PERF_EVENT_IOC_MODIFY_ATTRIBUTES({addr:#x}, len {len}) failed: {}", std::io::Error::last_os_error()));
+                }
+                self.live[i] = true;
+            } else if self.live[i] {
+                unsafe { libc::ioctl(self.fds[i], PERF_EVENT_IOC_DISABLE, 0) };
+                self.live[i] = false;
+            }
+        }
+        self.cur.clear();
+        self.cur.extend_from_slice(ps);
+        Ok(())
+    }
+    /// Positive control: a same-value store to the first and to the last byte of every armed
+    /// piece counts exactly 1 on that piece and 0 on the others.
+    fn control(&self) -> Result<(), String> {
+        for (i, &(a, l)) in self.cur.iter().enumerate() {
+            for b in [a, a + l - 1].into_iter().take(if l == 1 { 1 } else { 2 }) {
+                let c0 = self.counts();
+                unsafe { write_volatile(b as *mut u8, read_volatile(b as *const u8)) };
+                let c1 = self.counts();
+                if !(0..self.cur.len()).all(|j| c1[j] == c0[j] + (i == j) as u64) {
+                    return Err(format!("positive control: a same-value store to {b:#x} moved the watchpoints {:?} from {c0:?} to {c1:?} (expected +1 on #{i} only)", self.cur));
+                }
+            }
+        }
+        Ok(())
+    }
+    fn disarm(&mut self) {
+        for i in 0..4 {
+            if self.live[i] {
+                unsafe { libc::ioctl(self.fds[i], PERF_EVENT_IOC_DISABLE, 0) };
+                self.live[i] = false;
+            }
+        }
+    }
+    fn reset(&self) {
+        for i in 0..self.cur.len() {
+            unsafe { libc::ioctl(self.fds[i], PERF_EVENT_IOC_RESET, 0) };
+        }
+    }
+    fn count(&self, i: usize) -> u64 {
+        let mut v = 0u64;
+        let k = unsafe { libc::read(self.fds[i], &mut v as *mut u64 as *mut c_void, 8) };
+        if k == 8 {
+            v
+        } else {
+            u64::MAX
+        }
+    }
+    fn counts(&self) -> [u64; 4] {
+        let mut c = [0u64; 4];
+        for (i, x) in c.iter_mut().enumerate().take(self.cur.len()) {
+            *x = self.count(i);
+        }
+        c
+    }
+}
+impl Drop for Watch {
+    fn drop(&mut self) {
+        for fd in self.fds {
+            unsafe { libc::close(fd) };
+        }
     }
 }
 
@@ -341,11 +590,11 @@ fn do_memcpy(cx: &mut Ctx, n: usize, dp: P, sp: P, r: &mut Report) {
         sp.name(),
         sp.mis()
     );
+    let what = |cx: &Ctx| format!("memcpy(dest misaligned {}, src misaligned {}, n={n}) [{}]", dr.ptr() as usize & 15, sr.ptr() as usize & 15, cx.case);
     begin(cx, r);
     let ret = unsafe { (cx.f.memcpy)(dr.ptr(), sr.ptr(), n) };
     clear_case();
     r.outcome(path_class(n, dr.ptr() as usize, sr.ptr() as usize, false));
-    let what = |cx: &Ctx| format!("memcpy(dest misaligned {}, src misaligned {}, n={n}) [{}]", dr.ptr() as usize & 15, sr.ptr() as usize & 15, cx.case);
     if ret != dr.ptr() {
         r.violation("C08:memcpy:wrong-return", format!("{}: returned dest{:+}", what(cx), ret as isize - dr.ptr() as isize), case_value(cx));
     }
@@ -656,6 +905,196 @@ fn unit_cmp(cx: &mut Ctx, n: usize, positions: &[isize], pairs: &[(u8, u8)], mis
     }
 }
 
+/// Replay filter of the watchpoint pass: only this source misalignment / distance / fill.
+#[derive(Clone, Copy, Default)]
+struct WSel {
+    sm: Option<usize>,
+    d: Option<isize>,
+    c: Option<c_int>,
+}
+
+const WATCH_FILLS: &[u8] = &[0x00, 0xa7];
+
+fn watch_margin(nmax: usize) -> usize {
+    (2 * nmax + 16 + 2 * RED + 15) & !15
+}
+/// arena bytes a watch frame for lengths up to `nmax` needs
+fn watch_span(nmax: usize) -> usize {
+    2 * watch_margin(nmax) + 64
+}
+
+/// One watchpoint configuration.  Moving a hardware watchpoint is expensive (and serialised
+/// machine-wide), so the watchpoints stay where they are and the operands move: the four debug
+/// registers are put once on the bytes just outside a fixed ANCHOR address `A` with
+/// `A mod 16 == e`; then for every n (x source misalignment / distance / fill)
+///   side After : dest = A - n  (the range ends at the anchor; watched: A .. end of the next aligned word, 8..=15 bytes)
+///   side Before: dest = A      (the range starts at the anchor; watched: previous aligned word .. A-1, 8..=15 bytes)
+/// Over e in 0..16 this gives every (n, destination misalignment) on both sides.  While the
+/// watchpoints are live the harness itself writes only inside `[dest, dest+n)` (prefill,
+/// restore) and into the other arena; the counters are read after every call, any increase is a
+/// store of the function under test outside its destination, whatever value it stored.  The
+/// positive control (same-value stores by the harness to the first and last byte of every
+/// watched piece must count exactly 1 each) runs when the configuration is armed and again
+/// before it is left: a watchpoint that was not live is a machinery failure, not a pass.
+#[allow(clippy::too_many_arguments)]
+fn watch_config(cx: &mut Ctx, op: Op, side: Side, e: usize, ns: &[usize], ladder: bool, sel: WSel, r: &mut Report) {
+    use std::fmt::Write;
+    if cx.wp_fail.is_some() || ns.is_empty() {
+        return;
+    }
+    let nmax = *ns.iter().max().unwrap();
+    let m = watch_margin(nmax);
+    assert!(2 * m + 32 <= cx.a.capacity(), "watch frame does not fit the arena");
+    let start = cx.a.start_ptr();
+    let frame_len = 2 * m + 32;
+    let frame = unsafe { std::slice::from_raw_parts_mut(start, frame_len) };
+    // the frame's resting content, by offset from the arena start
+    let table: &[u8] = if op == Op::Memmove { &cx.pat } else { &cx.cz };
+    let table: &'static [u8] = unsafe { std::slice::from_raw_parts(table.as_ptr(), table.len()) }; // tables are never resized
+    frame.copy_from_slice(&table[..frame_len]);
+    let a_off = m + e;
+    let anchor = start as usize + a_off;
+    debug_assert!(anchor % 16 == e);
+    let ps = pieces(anchor, 0, side);
+    {
+        let w = cx.watch.as_mut().expect("watch shard without watchpoints");
+        if let Err(err) = w.arm(&ps).and_then(|()| w.control()) {
+            cx.wp_fail = Some(format!("arming {side:?} of anchor ..{:x}: {err}", anchor & 0xff));
+            return;
+        }
+    }
+    let side_name = if side == Side::After { "after" } else { "before" };
+    let mut last = cx.watch.as_ref().unwrap().counts();
+    for &n in ns {
+        let d_off = if side == Side::After { a_off - n } else { a_off };
+        let dptr = unsafe { start.add(d_off) };
+        let dm = dptr as usize & 15;
+        // parameter list of this (n, dm)
+        let params: Vec<isize> = match op {
+            Op::Memcpy => sel.sm.map(|x| vec![x as isize]).unwrap_or_else(|| (0..16).collect()),
+            Op::Memmove => sel.d.map(|x| vec![x]).unwrap_or_else(|| if ladder { ladder_dists(n) } else { all_dists(n) }),
+            Op::Memset => sel.c.map(|x| vec![x as isize]).unwrap_or_else(|| WATCH_FILLS.iter().map(|&b| b as isize).collect()),
+            Op::Cmp => vec![],
+        };
+        for q in params {
+            let dest = &mut frame[d_off..d_off + n];
+            let mut src_range = None;
+            cx.case.clear();
+            // set-up: writes only inside dest and in the other arena
+            let (opname, ret) = match op {
+                Op::Memcpy => {
+                    let sr = locate(&cx.s, P::Mid(q as usize), n);
+                    let sb = sr.bytes();
+                    sb.copy_from_slice(&cx.cz[7..7 + sr.len]);
+                    sb[sr.off..sr.off + n].copy_from_slice(&cx.pat[..n]);
+                    ref_copy(&mut cx.exp[..n], &sb[sr.off..sr.off + n]);
+                    dest.copy_from_slice(&cx.npat[..n]);
+                    let _ = write!(cx.case, r#"{{"op":"memcpy","n":{n},"dp":"mid","dm":{dm},"sp":"mid","sm":{q},"wp":"{side_name}"}}"#);
+                    begin(cx, r);
+                    ("memcpy", unsafe { (cx.f.memcpy)(dptr, sr.ptr(), n) })
+                }
+                Op::Memmove => {
+                    let s_off = (d_off as isize - q) as usize;
+                    src_range = Some((s_off, s_off + n));
+                    {
+                        let (exp, tmp) = (&mut cx.exp, &mut cx.tmp);
+                        ref_copy(&mut tmp[..n], &table[s_off..s_off + n]);
+                        ref_copy(&mut exp[..n], &tmp[..n]);
+                    }
+                    let _ = write!(cx.case, r#"{{"op":"memmove","n":{n},"p":"mid","dm":{dm},"d":{q},"wp":"{side_name}"}}"#);
+                    begin(cx, r);
+                    ("memmove", unsafe { (cx.f.memmove)(dptr, start.add(s_off), n) })
+                }
+                Op::Memset => {
+                    let c = q as c_int;
+                    dest.fill(!(c as u8));
+                    ref_fill(&mut cx.exp[..n], c as u8);
+                    let _ = write!(cx.case, r#"{{"op":"memset","n":{n},"p":"mid","dm":{dm},"c":{c},"wp":"{side_name}"}}"#);
+                    begin(cx, r);
+                    ("memset", unsafe { (cx.f.memset)(dptr, c, n) })
+                }
+                Op::Cmp => unreachable!(),
+            };
+            let now = cx.watch.as_ref().unwrap().counts();
+            clear_case();
+            let hits: Vec<String> = ps
+                .iter()
+                .enumerate()
+                .filter(|&(i, _)| now[i] != last[i])
+                .map(|(i, &(a, l))| {
+                    format!("{} store(s) into dest{:+}..dest{:+}", now[i].wrapping_sub(last[i]), a as isize - dptr as isize, (a + l) as isize - dptr as isize)
+                })
+                .collect();
+            last = now;
+            let what = format!("{opname} with dest misaligned {dm}, n={n} [{}]", cx.case);
+            if hits.is_empty() {
+                r.outcome(if side == Side::After { "watch:after:no-store" } else { "watch:before:no-store" });
+            } else {
+                r.outcome("watch:store-outside-range");
+                r.violation(
+                    &format!("C08:{opname}:writes-outside-range"),
+                    format!(
+                        "{what}: hardware write watchpoints saw {} - outside the destination dest+0..dest{n:+}; the bytes may hold the same values afterwards, but the function stored to them",
+                        hits.join(", ")
+                    ),
+                    case_value(cx),
+                );
+            }
+            // the value oracle, on the destination and RED bytes on either side
+            if ret != dptr {
+                r.violation(&format!("C08:{opname}:wrong-return"), format!("{what}: returned dest{:+}", ret as isize - dptr as isize), case_value(cx));
+            }
+            if let Some(i) = first_diff(&frame[d_off..d_off + n], &cx.exp[..n]) {
+                r.violation(
+                    &format!("C08:{opname}:wrong-bytes"),
+                    format!("{what}: dest[{i}] = {:#04x}, the C definition gives {:#04x}", frame[d_off + i], cx.exp[i]),
+                    case_value(cx),
+                );
+            }
+            let (lo, hi) = (d_off - RED, d_off + n + RED);
+            let outside = first_diff(&frame[lo..d_off], &table[lo..d_off])
+                .map(|i| lo + i)
+                .or_else(|| first_diff(&frame[d_off + n..hi], &table[d_off + n..hi]).map(|i| d_off + n + i));
+            if let Some(i) = outside {
+                let in_src = src_range.is_some_and(|(lo, hi)| i >= lo && i < hi);
+                r.violation(
+                    &format!("C08:{opname}:{}", if in_src { "source-modified" } else { "redzone-written" }),
+                    format!("{what}: byte at dest{:+} (outside the destination) changed from {:#04x} to {:#04x}", i as isize - d_off as isize, table[i], frame[i]),
+                    case_value(cx),
+                );
+                // put the frame back (this touches watched bytes: resynchronise the counters)
+                frame[lo..hi].copy_from_slice(&table[lo..hi]);
+                last = cx.watch.as_ref().unwrap().counts();
+            }
+            // restore: writes only inside dest
+            frame[d_off..d_off + n].copy_from_slice(&table[d_off..d_off + n]);
+        }
+    }
+    let w = cx.watch.as_mut().unwrap();
+    if let Err(err) = w.control() {
+        cx.wp_fail = Some(format!("leaving {side:?} of anchor ..{:x}: {err}", anchor & 0xff));
+    }
+    w.disarm();
+}
+
+/// Watchpoint pass of one shard: both sides x the 16 anchor alignments x every n of `ns`.
+fn unit_watch(cx: &mut Ctx, op: Op, ns: &[usize], ladder: bool, r: &mut Report) {
+    for side in [Side::After, Side::Before] {
+        for e in 0..16 {
+            watch_config(cx, op, side, e, ns, ladder, WSel::default(), r);
+        }
+    }
+}
+
+/// End of a watch shard: an untrustworthy watchpoint is a machinery failure, never a pass.
+fn watch_verdict(cx: &Ctx, r: &mut Report) {
+    if let Some(e) = &cx.wp_fail {
+        eprintln!("MACHINERY: hardware watchpoints: {e}");
+        r.cap(format!("hardware write watchpoints not usable: {e}"));
+        r.notes.push("machinery-failure".into());
+    }
+}
+
 /// Cut `0..=nmax` into at most `k` contiguous ranges of about equal `cost`, smallest n first.
 fn chunks(nmax: usize, k: usize, cost: impl Fn(usize) -> u64) -> Vec<(usize, usize)> {
     let total: u64 = (0..=nmax).map(&cost).sum();
@@ -707,6 +1146,10 @@ struct Bounds {
     n_set: usize,
     n_cmp: usize,
     fills: Vec<u8>,
+    /// watchpoint pass: n bounds for memcpy, memmove, memset
+    w_copy: usize,
+    w_move: usize,
+    w_set: usize,
 }
 
 fn c08(args: &Args, ld: &Loaded) -> Report {
@@ -725,9 +1168,9 @@ fn c08(args: &Args, ld: &Loaded) -> Report {
     // the exhaustive window always covers 0..=2*threshold+word and (at least) as much again
     let floor = 2 * window;
     let b = if args.thorough {
-        Bounds { n_copy: floor.max(4200), n_move: floor.max(1024), n_set: floor.max(1024), n_cmp: floor.max(256), fills: (0..=255).collect() }
+        Bounds { n_copy: floor.max(4200), n_move: floor.max(1024), n_set: floor.max(1024), n_cmp: floor.max(256), fills: (0..=255).collect(), w_copy: floor.max(512), w_move: floor.max(256), w_set: floor.max(512) }
     } else {
-        Bounds { n_copy: floor, n_move: floor, n_set: floor, n_cmp: floor.min(64).max(window + 8), fills: FILLS_QUICK.to_vec() }
+        Bounds { n_copy: floor, n_move: floor, n_set: floor, n_cmp: floor.min(64).max(window + 8), fills: FILLS_QUICK.to_vec(), w_copy: floor, w_move: floor, w_set: floor }
     };
     let f = ld.syms;
     let all_mis: Vec<usize> = (0..16).collect();
@@ -798,6 +1241,48 @@ fn c08(args: &Args, ld: &Loaded) -> Report {
         }
     }
 
+    // watchpoint part: detects STORES outside the destination even when they leave the values unchanged
+    let kw = if args.thorough { 32 } else { 8 };
+    for (op, lim, kk) in [(Op::Memcpy, b.w_copy, kw / 2), (Op::Memmove, b.w_move, kw), (Op::Memset, b.w_set, kw / 4)] {
+        let cost = move |n: usize| match op {
+            Op::Memmove => (2 * n as u64 + 33) * (n as u64 + 400),
+            _ => n as u64 + 400,
+        };
+        for (lo, hi) in chunks(lim, kk, cost) {
+            items.push(isolated(format!("watch-{op:?}-{lo}..={hi}"), move || {
+                let mut r = Report::new();
+                let mut cx = Ctx::new(f, watch_span(hi));
+                cx.enable_watch();
+                let ns: Vec<usize> = (lo..=hi).collect();
+                unit_watch(&mut cx, op, &ns, false, &mut r);
+                if lo == 0 {
+                    r.sample(match op {
+                        Op::Memcpy => json!({"op":"memcpy","n":21,"dp":"mid","dm":3,"sp":"mid","sm":11,"wp":"after"}),
+                        Op::Memmove => json!({"op":"memmove","n":19,"p":"mid","dm":5,"d":-24,"wp":"after"}),
+                        _ => json!({"op":"memset","n":27,"p":"mid","dm":6,"c":167,"wp":"before"}),
+                    });
+                }
+                watch_verdict(&cx, &mut r);
+                r
+            }));
+        }
+    }
+    for &n in LADDER {
+        for (op, lim) in [(Op::Memcpy, b.w_copy), (Op::Memmove, b.w_move), (Op::Memset, b.w_set)] {
+            if n <= lim {
+                continue;
+            }
+            items.push(isolated(format!("ladder-watch-{op:?}-{n}"), move || {
+                let mut r = Report::new();
+                let mut cx = Ctx::new(f, watch_span(n));
+                cx.enable_watch();
+                unit_watch(&mut cx, op, &[n], true, &mut r);
+                watch_verdict(&cx, &mut r);
+                r
+            }));
+        }
+    }
+
     // ladder part (a fixed sample of large sizes, NOT exhaustive in n): shards per (op, n[, quarter of the misalignments])
     let lad_mis: Vec<usize> = vec![0, 1, 7, 8, 15];
     for &n in LADDER {
@@ -860,6 +1345,13 @@ fn c08(args: &Args, ld: &Loaded) -> Report {
          memset every n in 0..={} x every misalignment (+ both guard placements) x fill bytes {} each passed as b, b|0x5a3c9600 and b-256; \
          memcmp and bcmp every n in 0..={} x every position of the first differing byte (and none) x byte pairs {{0/1,0/255,127/128,255/0}} x {{identical tail, tail differing the other way}} \
          x every misalignment pair 0..=15 x 0..=15 (+ four guard placements), both argument orders. The compiled source has WORD_COPY_THRESHOLD={:?}, word={WORD}: 2*threshold+word={window}. \
+         WATCHPOINT part (detects stores outside the destination that leave the values unchanged, e.g. a word read-modify-write at an end of the range): \
+         memcpy every n in 0..={wc} x 16 x 16 misalignments, memmove every n in 0..={wm} x 16 destination misalignments x every distance -(n+16)..=n+16, memset every n in 0..={ws} x 16 misalignments x fills {{0,0xa7}} \
+         (and the ladder sizes beyond, memmove there with the ladder distances), each called twice with the thread's four hardware write watchpoints (perf_event_open PERF_TYPE_BREAKPOINT, user mode) \
+         once on dest+n .. end of the following aligned word (8..=15 bytes) and once on the preceding aligned word .. dest-1 (8..=15 bytes); the counters are read after every call and any counted store is a violation; \
+         the watchpoints stay fixed around an anchor address per (side, anchor alignment 0..=15) and the destination is moved to end/start at it; same-value stores by the harness to the first and last byte of every watched piece must count exactly 1 \
+         both before and after the calls of a configuration, and every shard first calibrates (correct copy counts 0, same-value store to each watched byte counts 1, straddling aligned word rewrite counts), else the run is a machinery failure. \
+         Stores further than that from the destination are only caught by the canaries/guard pages, i.e. when they change a value or fault. \
          LADDER part (a fixed sample, not exhaustive in n): n in {:?} (those beyond the exhaustive window) with memcpy at all 16x16 misalignments + guard placements, \
          memmove at all 16 destination misalignments x distances {{0,+-1,+-7,+-8,+-9,+-16,+-n/2,+-(n-9),+-(n-8),+-(n-1),+-n,+-(n+1),+-(n+16)}}, memset at all 16 misalignments x fills {{0,1,0x7f,0x80,0xff}}, \
          memcmp/bcmp at misalignments {{0,1,7,8,15}}^2, positions {{none,0,1,7,8,n/2,n-9,n-2,n-1}}, pairs {{0/1,255/0}}. \
@@ -871,8 +1363,14 @@ fn c08(args: &Args, ld: &Loaded) -> Report {
         if b.fills.len() == 256 { "0..=255".to_string() } else { format!("{:02x?}", b.fills) },
         b.n_cmp,
         thr,
-        LADDER
+        LADDER,
+        wc = b.w_copy,
+        wm = b.w_move,
+        ws = b.w_set
     );
+    r.bound("n_max_watch_memcpy", b.w_copy);
+    r.bound("n_max_watch_memmove", b.w_move);
+    r.bound("n_max_watch_memset", b.w_set);
     r.bound("n_max_memcpy", b.n_copy);
     r.bound("n_max_memmove", b.n_move);
     r.bound("n_max_memset", b.n_set);
@@ -891,6 +1389,20 @@ fn run_case(cx: &mut Ctx, v: &Value, r: &mut Report) {
     let i = |k: &str| v[k].as_i64().unwrap_or(0);
     let s = |k: &str| v[k].as_str().unwrap_or("mid").to_string();
     let n = u("n");
+    if let Some(side) = v["wp"].as_str() {
+        let side = if side == "before" { Side::Before } else { Side::After };
+        let dm = u("dm") & 15;
+        let e = if side == Side::After { (dm + n) & 15 } else { dm };
+        let (op, sel) = match v["op"].as_str().unwrap_or("") {
+            "memcpy" => (Op::Memcpy, WSel { sm: Some(u("sm") & 15), ..Default::default() }),
+            "memmove" => (Op::Memmove, WSel { d: Some(i("d") as isize), ..Default::default() }),
+            "memset" => (Op::Memset, WSel { c: Some(i("c") as c_int), ..Default::default() }),
+            other => panic!("replay: no watchpoint pass for {other:?}"),
+        };
+        cx.enable_watch();
+        watch_config(cx, op, side, e, &[n], false, sel, r);
+        return;
+    }
     match v["op"].as_str().unwrap_or("") {
         "memcpy" => do_memcpy(cx, n, P::parse(&s("dp"), u("dm")), P::parse(&s("sp"), u("sm")), r),
         "memmove" => do_memmove(cx, n, P::parse(&s("p"), u("dm")), i("d") as isize, r),
@@ -922,8 +1434,9 @@ fn replay(v: Value, ld: &Loaded) -> Report {
     let out = std::env::temp_dir().join(format!("h-mem-replay-{}", std::process::id())).to_string_lossy().into_owned();
     let items = vec![isolated("replay", move || {
         let mut r = Report::new();
-        let mut cx = Ctx::new(f, 2 * n + d + 64);
+        let mut cx = Ctx::new(f, (2 * n + d + 64).max(watch_span(n)));
         run_case(&mut cx, &v, &mut r);
+        watch_verdict(&cx, &mut r);
         r
     })];
     let r = run_isolated(items, &out, "C08");
